@@ -551,6 +551,46 @@ func setSemantics(r *Repo, n, k, k2 int) (map[string]string, int, error) {
 				return s
 			}, maxI + 1},
 		}
+		// small sets at the upper limit: every observer, String included
+		type small struct {
+			name string
+			mk   func() Value
+			str  string
+			len  int64
+		}
+		smalls := []small{
+			{"NewSet().Add(MaxInt32)", func() Value { s := se.fresh(); se.call(s, "Add", maxI); return s }, fmt.Sprintf("[%d]", maxI), 1},
+			{"NewSet().AddRange(MaxInt32-1,MaxInt32)", func() Value { s := se.fresh(); se.call(s, "AddRange", maxI-1, maxI); return s }, fmt.Sprintf("[%d %d]", maxI-1, maxI), 2},
+			{"NewSet().Add(0).Add(MaxInt32)", func() Value { s := se.fresh(); se.call(s, "Add", int64(0)); se.call(s, "Add", maxI); return s }, fmt.Sprintf("[0 %d]", maxI), 2},
+			{"NewSet().AddRange(0,MaxInt32-1).Complement(MaxInt32)", func() Value {
+				s := se.fresh()
+				se.call(s, "AddRange", int64(0), maxI-1)
+				return se.call(s, "Complement", maxI)
+			}, fmt.Sprintf("[%d]", maxI), 1},
+		}
+		for _, sm := range smalls {
+			func() {
+				defer func() {
+					if p := recover(); p != nil {
+						switch x := p.(type) {
+						case goPanic:
+							found["String at the limit"] = sm.name + ".String(): " + x.msg + " at " + x.pos
+						case nilDeref:
+							found["String at the limit"] = sm.name + ".String(): nil dereference at " + x.pos
+						default:
+							panic(p)
+						}
+					}
+				}()
+				s := sm.mk()
+				if got, _ := se.call(s, "Len").(int64); got != sm.len {
+					found["Len wrong"] = fmt.Sprintf("%s.Len() = %d, the set has %d elements", sm.name, got, sm.len)
+				}
+				if got, _ := se.call(s, "String").(string); got != sm.str {
+					found["String wrong"] = fmt.Sprintf("%s.String() = %q, the elements are %s", sm.name, clip(got, 60), sm.str)
+				}
+			}()
+		}
 		for _, pr := range probes {
 			s := pr.mk()
 			if got, _ := se.call(s, "Len").(int64); got != pr.len {
